@@ -435,7 +435,8 @@ def build_automaton(aut):
 
 def build_graph(gd):
     from pytenet.opgraph import OpGraph, OpGraphNode, OpGraphEdge
-    g = OpGraph([OpGraphNode(nid, [], [], q) for nid, q in gd['nodes']], [], list(gd['term']))
+    # the caller-owned list of terminal ids is passed as it is (the constructor has to copy it: flip() reverses the graph's own list)
+    g = OpGraph([OpGraphNode(nid, [], [], q) for nid, q in gd['nodes']], [], gd['term'])
     shared = {}
     for eid, n0, n1, opics in gd['edges']:
         # parallel edges are built from one caller-owned [from, to] list object (the constructor has to copy it)
